@@ -28,7 +28,7 @@ OptSets ==
      << << Fill(255, 9), Fill(255, 4) >> >>,
      << << KeyB, ValX >>, << KeyA, ValX >> >>,                                  \* unsorted
      << << << 104, 111, 115, 116 >>, << 49, 46, 50, 46, 51, 46, 52 >> >>, << << 112, 111, 114, 116 >>, << 56, 48 >> >> >>,
-     CollisionPairs >>
+     CollisionPairs, PrefixPairs >>
 
 \* for RouterInfo sessions the extent L of the embedded identity (for the independent SHA-256 of IdentHash) comes from the reference decoder
 ExtraFor(fns, w, extra) == IF fns[1] = "ReadRouterInfo" THEN extra @@ [L |-> Min(RefReadRouterIdentity(w).consumed, Len(w))] ELSE extra
